@@ -138,6 +138,9 @@ func buildSchema(s *schemaDef) (*graphql.Schema, error) {
 	if s.mutation != "" {
 		def.Mutation = objs[s.mutation]
 	}
+	if s.subscription != "" {
+		def.Subscription = objs[s.subscription]
+	}
 	var names []string
 	for n := range named {
 		names = append(names, n)
@@ -206,9 +209,9 @@ func schemaSexp(s *schemaDef) sexp.Node {
 	}
 	ins, ads := inputsSexp(s)
 	if s.poolArgs != nil {
-		return sexp.T("schema", sexp.L(ts...), sexp.Str(s.query), opt(s.mutation), sexp.None(), ins, ads, dtTableSexp())
+		return sexp.T("schema", sexp.L(ts...), sexp.Str(s.query), opt(s.mutation), opt(s.subscription), ins, ads, dtTableSexp())
 	}
-	return sexp.T("schema", sexp.L(ts...), sexp.Str(s.query), opt(s.mutation), sexp.None(), ins, ads)
+	return sexp.T("schema", sexp.L(ts...), sexp.Str(s.query), opt(s.mutation), opt(s.subscription), ins, ads)
 }
 
 func posSexp(n ast.Node) sexp.Node {
@@ -537,8 +540,11 @@ func genCase(r *rng.R, hostile bool) sexp.Node {
 	return runCase(caseInput{s: s, text: d.text, opName: d.opName, vars: d.vars, env: d.env, unvalidated: hostile, mkW: func(p parsedDoc) *outcome {
 		g := &wGen{s: s, r: r, pFail: pFail, frags: p.frags, real: p.real, vv: p.vv}
 		root := s.query
-		if p.kind == "mutation" {
+		if p.kind == "mutation" && s.mutation != "" {
 			root = s.mutation
+		}
+		if p.kind == "subscription" && s.subscription != "" {
+			root = s.subscription
 		}
 		return g.object(root, p.opSels, 3)
 	}})
